@@ -133,13 +133,16 @@ int main(int argc, char** argv) {
             node& n = cell_tester::nodes(*c1)[0];
             cell_tester::pos(n) = p;
             const double cut = std::sqrt(C["cut2"].d()) * u;
-            // two DIFFERENT cut-offs, so that exchanging them anywhere between the parameter file and the range tests shows: the spring
-            // model has a range per interaction (repulsion: cut, adhesion: twice that); the coupling models use the larger of the two
-            // for both (adhesion: cut, repulsion: half of it -- the range of the specification is still cut)
+            // two DIFFERENT cut-offs, so that exchanging or mixing them anywhere between the parameter file and the range tests shows.
+            // The range of the repulsion rule of the specification is `cut` in every configuration (the coupling models use the larger
+            // of the two cut-offs for it); the adhesion / coupling range is the adhesion cut-off:
+            //   configuration "A": spring model adhesion 2 cut, repulsion cut;   coupling models adhesion cut, repulsion cut / 2
+            //   configuration "B": every model  adhesion cut / 2, repulsion cut
+            const bool cfgB = C.has("cfg") && C["cfg"].s() == "B";
 #if CONTACT_MODEL_INDEX == 0
-            open_model mdl(params(u, 2. * cut, cut));
+            open_model mdl(cfgB ? params(u, 0.5 * cut, cut) : params(u, 2. * cut, cut));
 #else
-            open_model mdl(params(u, cut, 0.5 * cut));
+            open_model mdl(cfgB ? params(u, 0.5 * cut, cut) : params(u, cut, 0.5 * cut));
 #endif
             std::vector<cell_ptr> L = {c1, c2};
             zero(L);
@@ -199,18 +202,19 @@ int main(int argc, char** argv) {
                     }
                 }
             }
-            const double lmin = C["lmin"].d() * u, cut = C["cut"].d() * u;
-            open_model mdl(params(lmin, cut, cut));
+            // adhesion and repulsion cut-offs may differ ("cutr": repulsion cut-off, default: equal to "cut" = adhesion cut-off)
+            const double lmin = C["lmin"].d() * u, cut_a = C["cut"].d() * u, cut_r = (C.has("cutr") ? C["cutr"].d() : C["cut"].d()) * u, cut = std::max(cut_a, cut_r);
+            open_model mdl(params(lmin, cut_a, cut_r));
             zero(L); zero(Lref); zero(Lre);
             mdl.run(L);
             // the same tissue through a model object that is RE-USED from case to case (one per parameter set), as the solver re-uses
             // its contact model -- and the grid inside it -- at every iteration while the tissue moves
             static std::map<std::pair<double, double>, std::unique_ptr<open_model>> reused;
-            auto& rm = reused[std::make_pair(lmin, cut)];
-            if (!rm) rm = std::make_unique<open_model>(params(lmin, cut, cut));
+            auto& rm = reused[std::make_pair(lmin, cut_a * 1024. + cut_r)];
+            if (!rm) rm = std::make_unique<open_model>(params(lmin, cut_a, cut_r));
             rm->run(Lre);
             // reference: the same narrow phase on every node-triangle pair of different cells (and the models' own node / face gates)
-            open_model ref(params(lmin, cut, cut));
+            open_model ref(params(lmin, cut_a, cut_r));
             long pairs = 0;
             // (pairs of cells whose bounding boxes are farther apart than the cut-off cannot interact: skipped by the reference on the
             //  strength of the node positions alone, so that tissues with 10^5 faces stay affordable)
